@@ -426,6 +426,17 @@ def GetBlockStep (pre : Ind) (l : Locus) (post : Ind) : Prop :=
 instance (pre l post) : Decidable (GetBlockStep pre l post) := by
   unfold GetBlockStep SameShape; infer_instance
 
+/-- `individual::inc_age()` (called by the evolution loop, not a genetic operator: it only makes
+    the age clause of crossover observable) -/
+def incAge (x : Ind) : Ind := { x with age := x.age + 1 }
+
+def IncAgeStep (pre post : Ind) : Prop :=
+  SameShape pre post ∧ post.best = pre.best ∧ post.age = pre.age + 1 ∧ post.xover = pre.xover ∧
+  SameGenes pre post
+
+instance (pre post) : Decidable (IncAgeStep pre post) := by
+  unfold IncAgeStep SameShape; infer_instance
+
 /-- "a compatible gene": a gene that may sit at that locus -/
 def Compatible (ss : SymSet) (x : Ind) (l : Locus) (g : Gene) : Prop :=
   Inside x l ∧ GeneWF ss x.rows x.cols l.idx l.cat g
